@@ -133,8 +133,9 @@ def parse_model(line):
         w = left.split()
         funcs = []
         for f in w[1:]:
-            code, regs, consts, f1, f2 = f.split(":")
-            funcs.append({"code": code, "regs": int(regs), "consts": [x for x in consts.split(",") if x], "f1": f1 == "1", "f2": f2 == "1"})
+            code, regs, consts, f1, f2, frag = (f.split(":") + ["????"])[:6]
+            funcs.append({"code": code, "regs": int(regs), "consts": [x for x in consts.split(",") if x], "f1": f1 == "1", "f2": f2 == "1",
+                          "frag": frag})
         m = mach.strip()
         res["cfg"][w[0]] = {"funcs": funcs, "mach": None if m in ("nocode", "noartifact") else [parse_outcome(x) for x in m.split(" | ")], "machraw": m}
     return res
@@ -160,7 +161,11 @@ class Evaluator:
         self.ctx, self.binp, self.runner, self.kf_ids = ctx, binp, runner, kf_ids
         self.stats = {"programs": 0, "comparisons_iii": 0, "comparisons_i": 0, "comparisons_ii": 0, "model_out_of_fuel": 0,
                       "impl_traps": 0, "impl_ok": 0, "rejected_as_expected": 0, "class_f1_programs": 0, "class_f2_programs": 0,
-                      "known_mismatches": 0, "energy_checked": 0}
+                      "known_mismatches": 0, "energy_checked": 0,
+                      # per dumped configuration: how many compiled functions lie in the fragments of the simulation
+                      # theorems (old = blocks_ok/blocks_ok_r, new = blocks_ok_dead/blocks_ok_r_dead), how many have
+                      # dead code, and on how many Compile.v(body) = Compile.v(strip body) (dead_code_compiles_away)
+                      "proved_fragment": {}}
         self.nontrivial = set()
         self.samples = []
 
@@ -225,6 +230,25 @@ class Evaluator:
                 if cfg == "v1" and [self._noalign(f.split()) for f in inp] != [self._noalign(f[2]) for f in prog.funcs]:
                     # parse + validate must hand the compiler exactly the opcodes of the module
                     out.append({"kind": "tie", "layer": "parse", "cfg": cfg, "what": "opcodes after parse/validate differ from the module text"})
+                fr = self.stats["proved_fragment"].setdefault(cfg, {"functions": 0, "in_blocks_ok": 0, "in_blocks_ok_dead": 0,
+                                                                    "with_dead_code": 0, "with_dead_code_in_blocks_ok_dead": 0,
+                                                                    "strip_compile_equal": 0})
+                for fi, mf in enumerate(mc["funcs"]):
+                    g = mf.get("frag", "????")
+                    if g == "rrrr":     # explicit empty else: the opcode stream is not flatten_body of its structured form
+                        fr["not_a_flatten_image"] = fr.get("not_a_flatten_image", 0) + 1
+                        continue
+                    if len(g) != 4 or "?" in g:
+                        continue
+                    fr["functions"] += 1
+                    fr["in_blocks_ok"] += g[0] == "1"
+                    fr["in_blocks_ok_dead"] += g[1] == "1"
+                    fr["with_dead_code"] += g[2] == "1"
+                    fr["with_dead_code_in_blocks_ok_dead"] += g[2] == "1" and g[1] == "1"
+                    fr["strip_compile_equal"] += g[3] == "1"
+                    if g[3] != "1" or (g[0] == "1" and g[1] != "1"):
+                        out.append({"kind": "tie", "layer": "extracted model vs its theorems (dead_code_compiles_away / dead_code_fragment_widens)",
+                                    "cfg": cfg, "func": fi, "what": "Compile.v on the stripped body differs, or blocks_ok without blocks_ok_dead: flags " + g})
                 for fi, (mf, jf) in enumerate(zip(mc["funcs"], dump["out"])):
                     self.stats["comparisons_i"] += 1
                     if mf["code"] != jf["code"] or mf["regs"] != jf["regs"] or mf["consts"] != jf["consts"]:
